@@ -216,6 +216,8 @@ def digest(outdir):
     out = {}
     for fn in sorted(os.listdir(outdir)):
         path = os.path.join(outdir, fn)
+        if os.path.isdir(path):
+            continue
         if fn.endswith(".bam") or fn.endswith(".bam.rep1"):
             recs = synth.read_bam(path)
             with pysam.AlignmentFile(path, check_sq=False) as f:
@@ -409,6 +411,33 @@ def run(rep, tier, seed, only=None):
                 if fn.endswith(".rep1"):
                     if dg.get(fn[:-5]) != content:
                         viols.append(V(f"repetition:{s['id']}", f"{s['id']}: second run in the same interpreter writes a different {fn[:-5]}", {"scenario": s["id"], "repeat": 2}))
+        # ---- 3b. every scenario, then other commands on the same files with other options, then every scenario again -
+        # all in ONE interpreter: what a command writes must not depend on what ran before it
+        if not only or "sequence" in only:
+            a_, f_, p_ = files["A"], files["F"], files["P"]
+            disturb = [
+                {"cmd": "polyphase", "tag": "d_polyA", "args": {"inputs": [a_["bam"]], "vcf": a_["vcf"], "fasta": a_["fasta"], "ploidy": 2, "kw": {"include_haploid_sets": True}}},
+                {"cmd": "polyphase", "tag": "d_polyU", "args": {"inputs": [a_["bam"]], "vcf": files["A_undeclared"], "fasta": a_["fasta"], "ploidy": 2, "kw": {"include_haploid_sets": True}}},
+                {"cmd": "polyphase", "tag": "d_polyF", "args": {"inputs": [f_["bam"]], "vcf": f_["vcf"], "fasta": f_["fasta"], "ploidy": 2, "kw": {"include_haploid_sets": True}}},
+                {"cmd": "polyphase", "tag": "d_polyP", "args": {"inputs": [p_["bam"]], "vcf": p_["vcf"], "fasta": p_["fasta"], "ploidy": 3, "kw": {"include_haploid_sets": True, "block_cut_sensitivity": 0}}},
+                {"cmd": "phase", "tag": "d_phaseA", "args": {"inputs": [a_["bam"]], "vcf": a_["vcf"], "fasta": a_["fasta"], "kw": {"tag": "HP", "distrust_genotypes": True, "include_homozygous": True}}},
+            ]
+            allsc = scenarios(files, names)
+            seq = [dict(cmd=s["cmd"], args=s["args"], tag="p1_" + s["id"]) for s in allsc] + disturb + [dict(cmd=s["cmd"], args=s["args"], tag="p2_" + s["id"]) for s in allsc]
+            sd = os.path.join(d, "sequence")
+            info, _ = run_child({"id": "sequence", "names": names, "sequence": seq}, 0, overlay, sd)
+            runs += 1
+            schedules += 1
+            if info.get("error"):
+                viols.append(V("error", f"command sequence in one interpreter failed: {info['error']}", {"scenario": "sequence"}))
+            else:
+                for s in allsc:
+                    d1, d2 = digest(os.path.join(sd, "p1_" + s["id"])), digest(os.path.join(sd, "p2_" + s["id"]))
+                    if d1 != d2:
+                        fn = next(k for k in d1 if d1.get(k) != d2.get(k))
+                        l1, l2 = d1[fn].splitlines(), (d2.get(fn) or "").splitlines()
+                        first = next(((x, y) for x, y in zip(l1, l2) if x != y), (len(l1), len(l2)))
+                        viols.append(V(f"history:{s['id']}", f"{s['id']}: {fn} differs when the same command runs again after other commands in the same interpreter: {str(first)[:300]}", {"scenario": "sequence"}))
         hsc = [s for s in scs if s["id"] == "haplotag"]
         if hsc:
             base = None
